@@ -1,1 +1,715 @@
-(* stub: to be written *)
+(* Loop.v — C06: control flow is preserved for every branch choice and trip count.
+
+   Model (stdlib only, everything total and computable):
+     * ONNX `Loop` (optional max trip count M, optional initial condition, loop-carried state,
+       per-iteration scan outputs stacked in order) and ONNX `If`, with fuel.  Running out of fuel
+       is the distinct outcome `NoFuel`, a runtime error inside a body (Gather out of range) is the
+       distinct outcome `Fault`; neither can be confused with a normal result `Done`.
+     * JAX `lax.while_loop`, `lax.scan` (forward; with scanned inputs and length-only),
+       `lax.fori_loop`, `lax.cond` / `lax.switch` (index clamped into range).
+     * the wiring schemes of the four plugins
+         jax2onnx/plugins/jax/lax/while_loop.py  (while_scheme, batched_while_scheme)
+         jax2onnx/plugins/jax/lax/scan.py        (scan_scheme, scan2_scheme, scan_n_scheme)
+         jax2onnx/plugins/jax/lax/fori_loop.py   (fori_scheme)
+         jax2onnx/plugins/jax/lax/cond.py        (cond_scheme, cond_plugin)
+       as Gallina functions that instantiate onnx_Loop / onnx_if from the JAX-level ingredients.
+       The scheme parameters (where M and the initial condition come from, what body output 0 is,
+       how scanned inputs are indexed, branch order) are extracted from real exports by
+       harness/c06.py and compared with these definitions.
+   Theorems: every scheme returns exactly what JAX returns, for EVERY trip count / length / bound /
+   predicate (induction on the iteration count; no bound), for every sufficient fuel. *)
+From Coq Require Import ZArith List Bool Lia Arith.
+Import ListNotations.
+Open Scope Z_scope.
+
+(* every automation call is time-bounded *)
+Ltac zlia := timeout 20 lia.
+
+(* ------------------------------------------------------------------ outcomes *)
+Inductive outcome (A : Type) : Type :=
+| Done (a : A)      (* normal termination *)
+| Fault             (* runtime error raised inside the body (e.g. Gather index out of range) *)
+| NoFuel.           (* the evaluator ran out of fuel: says nothing about the program *)
+Arguments Done {A} a.
+Arguments Fault {A}.
+Arguments NoFuel {A}.
+
+Definition outcome_map {A B} (f : A -> B) (o : outcome A) : outcome B :=
+  match o with Done a => Done (f a) | Fault => Fault | NoFuel => NoFuel end.
+
+Definition int64_max : Z := 9223372036854775807.
+
+(* ------------------------------------------------------------------ ONNX Loop / If *)
+(* ONNX operator spec (Loop-1..23):
+     for (i = 0; (M absent or i < M) && keep; ++i) { (keep, carried..., scan_i...) = body(i, keep, carried...) }
+   outputs: final carried values, then every scan output concatenated over the iterations in order
+   (zero iterations => empty scan outputs).  An absent `cond` input means true. *)
+Definition trip_ok (M : option Z) (i : Z) : bool :=
+  match M with None => true | Some m => i <? m end.
+
+Fixpoint onnx_loop {St Y : Type} (fuel : nat) (M : option Z) (i : Z) (keep : bool) (s : St)
+         (body : Z -> bool -> St -> option (bool * St * Y)) : outcome (St * list Y) :=
+  if keep && trip_ok M i then
+    match fuel with
+    | O => NoFuel
+    | S fuel' =>
+        match body i keep s with
+        | None => Fault
+        | Some (keep', s', y) =>
+            match onnx_loop fuel' M (i + 1) keep' s' body with
+            | Done (sf, ys) => Done (sf, y :: ys)
+            | Fault => Fault
+            | NoFuel => NoFuel
+            end
+        end
+    end
+  else Done (s, []).
+
+Definition onnx_Loop {St Y : Type} (fuel : nat) (M : option Z) (cond0 : option bool) (s0 : St)
+           (body : Z -> bool -> St -> option (bool * St * Y)) : outcome (St * list Y) :=
+  onnx_loop fuel M 0 (match cond0 with Some b => b | None => true end) s0 body.
+
+(* ONNX If: then_branch runs when the condition is true *)
+Definition onnx_if {B : Type} (c : bool) (then_branch else_branch : unit -> B) : B :=
+  if c then then_branch tt else else_branch tt.
+
+(* a Done result does not depend on how much fuel was given *)
+Lemma onnx_loop_fuel_mono : forall (St Y : Type) (body : Z -> bool -> St -> option (bool * St * Y))
+    fuel M i keep s r,
+  onnx_loop fuel M i keep s body = Done r ->
+  forall fuel', (fuel <= fuel')%nat -> onnx_loop fuel' M i keep s body = Done r.
+Proof.
+  intros St Y body fuel. induction fuel as [|f IH]; intros M i keep s r H fuel' Hle.
+  - simpl in H. destruct (keep && trip_ok M i) eqn:E; [discriminate|].
+    destruct fuel'; simpl; rewrite E; exact H.
+  - destruct fuel' as [|f']; [zlia|]. simpl in H |- *.
+    destruct (keep && trip_ok M i); [|exact H].
+    destruct (body i keep s) as [[[k' s'] y]|]; [|discriminate].
+    destruct (onnx_loop f M (i + 1) k' s' body) as [[sf ys]| |] eqn:E; try discriminate.
+    rewrite (IH _ _ _ _ _ E f') by zlia. exact H.
+Qed.
+
+(* ------------------------------------------------------------------ JAX semantics *)
+(* lax.while_loop(cond_fun, body_fun, init):  val = init; while cond_fun(val): val = body_fun(val) *)
+Fixpoint jax_while {St : Type} (fuel : nat) (c : St -> bool) (b : St -> St) (s : St) : outcome St :=
+  if c s then match fuel with O => NoFuel | S fuel' => jax_while fuel' c b (b s) end
+  else Done s.
+
+Fixpoint iter {St : Type} (b : St -> St) (n : nat) (s : St) : St :=
+  match n with O => s | S n' => iter b n' (b s) end.
+
+(* the while loop from s0 performs exactly n iterations *)
+Definition while_stops_at {St : Type} (c : St -> bool) (b : St -> St) (s0 : St) (n : nat) : Prop :=
+  (forall k, (k < n)%nat -> c (iter b k s0) = true) /\ c (iter b n s0) = false.
+
+Lemma while_stops_at_S : forall (St : Type) (c : St -> bool) b s n,
+  while_stops_at c b s (S n) -> c s = true /\ while_stops_at c b (b s) n.
+Proof.
+  intros St c b s n [H1 H2]. split.
+  - apply (H1 O). zlia.
+  - split; [|exact H2]. intros k Hk. apply (H1 (S k)). zlia.
+Qed.
+
+Lemma jax_while_spec : forall (St : Type) (c : St -> bool) b n s,
+  while_stops_at c b s n -> forall fuel, (n <= fuel)%nat -> jax_while fuel c b s = Done (iter b n s).
+Proof.
+  intros St c b n. induction n as [|n IH]; intros s H fuel Hf.
+  - destruct H as [_ H]. simpl in H. destruct fuel; simpl; rewrite H; reflexivity.
+  - apply while_stops_at_S in H. destruct H as [Hc H]. destruct fuel as [|f]; [zlia|].
+    simpl. rewrite Hc. apply IH; [exact H|zlia].
+Qed.
+
+Lemma jax_while_inv : forall (St : Type) (c : St -> bool) b fuel s sN,
+  jax_while fuel c b s = Done sN ->
+  exists n, (n <= fuel)%nat /\ while_stops_at c b s n /\ sN = iter b n s.
+Proof.
+  intros St c b fuel. induction fuel as [|f IH]; intros s sN H; simpl in H.
+  - destruct (c s) eqn:E; [discriminate|]. inversion H; subst. exists O. split; [zlia|].
+    split; [|reflexivity]. split; [intros k Hk; zlia|exact E].
+  - destruct (c s) eqn:E.
+    + destruct (IH _ _ H) as [n [Hn [[H1 H2] Hs]]]. exists (S n). split; [zlia|]. split; [|exact Hs].
+      split; [|exact H2]. intros k Hk. destruct k as [|k]; [exact E|]. simpl. apply H1. zlia.
+    + inversion H; subst. exists O. split; [zlia|]. split; [|reflexivity].
+      split; [intros k Hk; zlia|exact E].
+Qed.
+
+(* lax.scan(f, init, xs) forward:  carry = init; ys = []; for x in xs: carry, y = f(carry, x); ys.append(y) *)
+Fixpoint jax_scan {C X Y : Type} (f : C -> X -> C * Y) (init : C) (xs : list X) : C * list Y :=
+  match xs with
+  | [] => (init, [])
+  | x :: r => let '(c', y) := f init x in
+              let '(cf, ys) := jax_scan f c' r in (cf, y :: ys)
+  end.
+
+(* lax.scan(f, init, None, length=n) *)
+Definition jax_scan_n {C Y : Type} (f : C -> C * Y) (init : C) (n : nat) : C * list Y :=
+  jax_scan (fun c (_ : unit) => f c) init (repeat tt n).
+
+Lemma jax_scan_length : forall (C X Y : Type) (f : C -> X -> C * Y) xs init,
+  length (snd (jax_scan f init xs)) = length xs.
+Proof.
+  intros C X Y f xs. induction xs as [|x r IH]; intros init; simpl; [reflexivity|].
+  destruct (f init x) as [c' y]. specialize (IH c'). destruct (jax_scan f c' r) as [cf ys].
+  simpl in *. rewrite IH. reflexivity.
+Qed.
+
+(* lax.fori_loop(lower, upper, body, init):  val = init; for i in range(lower, upper): val = body(i, val) *)
+Definition py_range (lower upper : Z) : list Z :=
+  map (fun k => lower + Z.of_nat k) (seq 0 (Z.to_nat (upper - lower))).
+
+Definition jax_fori {St : Type} (lower upper : Z) (body : Z -> St -> St) (init : St) : St :=
+  fold_left (fun s i => body i s) (py_range lower upper) init.
+
+(* lax.cond(pred, true_fun, false_fun, x) *)
+Definition jax_cond {A B : Type} (p : bool) (true_fun false_fun : A -> B) (x : A) : B :=
+  if p then true_fun x else false_fun x.
+
+(* lax.clamp(lo, x, hi) on integers *)
+Definition clamp (lo x hi : Z) : Z := Z.max lo (Z.min x hi).
+
+(* lax.switch(index, branches, x): the index is clamped into [0, len(branches)-1] *)
+Definition jax_switch {A B : Type} (idx : Z) (branches : list (A -> B)) (x : A) : option B :=
+  match nth_error branches (Z.to_nat (clamp 0 idx (Z.of_nat (length branches) - 1))) with
+  | Some f => Some (f x)
+  | None => None
+  end.
+
+(* ------------------------------------------------------------------ scheme: while_loop.py *)
+(* WhileLoopPlugin.lower:
+     Loop(M = initializer int64 max, cond0 = cond_jaxpr(cond_consts, s0)  [computed OUTSIDE the Loop],
+          carried = body_consts ++ cond_consts ++ state)
+     body(i, cond_in, consts, s):  s' = body_jaxpr(consts, s); keep' = cond_jaxpr(consts, s');
+                                   outputs  keep', Identity(consts), s'      -- no scan outputs
+   K = the closed-over constants (both groups), threaded unchanged. *)
+Definition while_body {K St : Type} (c : K -> St -> bool) (b : K -> St -> St)
+  : Z -> bool -> K * St -> option (bool * (K * St) * unit) :=
+  fun _ _ ks => let '(k, s) := ks in let s' := b k s in Some (c k s', (k, s'), tt).
+
+Definition while_scheme {K St : Type} (fuel : nat) (M : Z) (c : K -> St -> bool) (b : K -> St -> St)
+           (k : K) (s0 : St) : outcome (K * St) :=
+  outcome_map fst (onnx_Loop fuel (Some M) (Some (c k s0)) (k, s0) (while_body c b)).
+
+Lemma while_loop_aux : forall (K St : Type) (c : K -> St -> bool) b k M n i s fuel,
+  while_stops_at (c k) (b k) s n -> i + Z.of_nat n <= M -> (n <= fuel)%nat ->
+  exists ys, onnx_loop fuel (Some M) i (c k s) (k, s) (while_body c b)
+             = Done ((k, iter (b k) n s), ys).
+Proof.
+  intros K St c b k M n. induction n as [|n IH]; intros i s fuel H HM Hf.
+  - destruct H as [_ H]. simpl in H. exists []. destruct fuel; simpl; rewrite H; reflexivity.
+  - apply while_stops_at_S in H. destruct H as [Hc H]. destruct fuel as [|f]; [zlia|].
+    simpl. rewrite Hc. simpl.
+    assert (Hlt : (i <? M) = true) by (apply Z.ltb_lt; zlia). rewrite Hlt.
+    destruct (IH (i + 1) (b k s) f H) as [ys Hys]; [zlia|zlia|].
+    rewrite Hys. exists (tt :: ys). reflexivity.
+Qed.
+
+(* C06 while: if the JAX loop performs n iterations (n = 0 included) and n <= M, the exported Loop
+   returns the same final state (and the constants unchanged), for every sufficient fuel *)
+Theorem while_scheme_correct : forall (K St : Type) (c : K -> St -> bool) (b : K -> St -> St) k s0 M n,
+  while_stops_at (c k) (b k) s0 n -> Z.of_nat n <= M ->
+  forall fuel, (n <= fuel)%nat ->
+    while_scheme fuel M c b k s0 = Done (k, iter (b k) n s0)
+    /\ jax_while fuel (c k) (b k) s0 = Done (iter (b k) n s0).
+Proof.
+  intros K St c b k s0 M n H HM fuel Hf. split.
+  - unfold while_scheme, onnx_Loop.
+    destruct (while_loop_aux K St c b k M n 0 s0 fuel H) as [ys Hys]; [zlia|exact Hf|].
+    rewrite Hys. reflexivity.
+  - apply jax_while_spec; assumption.
+Qed.
+
+(* the same, phrased from the JAX evaluator: whatever jax_while returns, the scheme returns *)
+Theorem while_scheme_matches_jax : forall (K St : Type) (c : K -> St -> bool) (b : K -> St -> St) k s0 M fuel sN,
+  jax_while fuel (c k) (b k) s0 = Done sN -> Z.of_nat fuel <= M ->
+  while_scheme fuel M c b k s0 = Done (k, sN).
+Proof.
+  intros K St c b k s0 M fuel sN H HM.
+  destruct (jax_while_inv _ _ _ _ _ _ H) as [n [Hn [Hs HsN]]]. subst sN.
+  apply (while_scheme_correct K St c b k s0 M n Hs); zlia.
+Qed.
+
+(* why the hypothesis n <= M is needed: a Loop with a small M truncates *)
+Example while_scheme_truncates :
+  while_scheme 10 2 (fun (_ : unit) s => s <? 5) (fun _ s => s + 1) tt 0 = Done (tt, 2)
+  /\ jax_while 10 (fun s => s <? 5) (fun s => s + 1) 0 = Done 5.
+Proof. split; reflexivity. Qed.
+
+(* ------------------------------------------------------------------ scheme: vmapped while_loop *)
+(* batched predicate (cond_jaxpr output has a non-empty shape):
+     Loop(M = int64 max, cond0 = any(p0), carried = p0 ++ consts ++ state)   with p0 = c(s0) per lane
+     body: cand = b(s); s' = Where(p_in, cand, s); p' = c(s'); keep' = any(p'); outputs keep', p', s'
+   lanes are list positions. *)
+Fixpoint zipw {A B C : Type} (f : A -> B -> C) (l1 : list A) (l2 : list B) : list C :=
+  match l1, l2 with
+  | a :: r1, b :: r2 => f a b :: zipw f r1 r2
+  | _, _ => []
+  end.
+
+Definition any (l : list bool) : bool := existsb (fun x => x) l.
+
+Definition bw_body {St : Type} (c : St -> bool) (b : St -> St)
+  : Z -> bool -> list bool * list St -> option (bool * (list bool * list St) * unit) :=
+  fun _ _ st => let '(ps, ss) := st in
+    let ss' := zipw (fun (p : bool) s => if p then b s else s) ps ss in
+    let ps' := map c ss' in
+    Some (any ps', (ps', ss'), tt).
+
+Definition batched_while_scheme {St : Type} (fuel : nat) (M : Z) (c : St -> bool) (b : St -> St)
+           (ss0 : list St) : outcome (list St) :=
+  let ps0 := map c ss0 in
+  outcome_map (fun r => snd (fst r)) (onnx_Loop fuel (Some M) (Some (any ps0)) (ps0, ss0) (bw_body c b)).
+
+(* one lane of the masked loop: advance only while the lane's own predicate holds *)
+Definition frozen {St : Type} (c : St -> bool) (b : St -> St) (s : St) : St := if c s then b s else s.
+
+Lemma zipw_map_frozen : forall (St : Type) (c : St -> bool) b ss,
+  zipw (fun (p : bool) s => if p then b s else s) (map c ss) ss = map (frozen c b) ss.
+Proof. intros St c b ss. induction ss as [|s r IH]; simpl; [reflexivity|]. rewrite IH. reflexivity. Qed.
+
+Lemma any_map : forall (St : Type) (c : St -> bool) ss, any (map c ss) = existsb c ss.
+Proof. intros St c ss. induction ss as [|s r IH]; simpl; [reflexivity|]. unfold any in IH. rewrite <- IH. reflexivity. Qed.
+
+Lemma bw_loop_aux : forall (St : Type) (c : St -> bool) b M n i ss fuel,
+  while_stops_at (existsb c) (map (frozen c b)) ss n -> i + Z.of_nat n <= M -> (n <= fuel)%nat ->
+  exists ps ys, onnx_loop fuel (Some M) i (existsb c ss) (map c ss, ss) (bw_body c b)
+                = Done ((ps, iter (map (frozen c b)) n ss), ys).
+Proof.
+  intros St c b M n. induction n as [|n IH]; intros i ss fuel H HM Hf.
+  - destruct H as [_ H]. simpl in H. exists (map c ss), []. destruct fuel; simpl; rewrite H; reflexivity.
+  - apply while_stops_at_S in H. destruct H as [Hc H]. destruct fuel as [|f]; [zlia|].
+    simpl. rewrite Hc. simpl.
+    assert (Hlt : (i <? M) = true) by (apply Z.ltb_lt; zlia). rewrite Hlt.
+    rewrite zipw_map_frozen, any_map.
+    destruct (IH (i + 1) (map (frozen c b) ss) f H) as [ps [ys Hys]]; [zlia|zlia|].
+    rewrite Hys. exists ps, (tt :: ys). reflexivity.
+Qed.
+
+Lemma iter_map : forall (St : Type) (g : St -> St) n ss, iter (map g) n ss = map (iter g n) ss.
+Proof.
+  intros St g n. induction n as [|n IH]; intros ss; simpl.
+  - symmetry. apply map_id.
+  - rewrite IH, map_map. reflexivity.
+Qed.
+
+Lemma iter_frozen_le : forall (St : Type) (c : St -> bool) b n s k,
+  while_stops_at c b s n -> (k <= n)%nat -> iter (frozen c b) k s = iter b k s.
+Proof.
+  intros St c b n. induction n as [|n IH]; intros s k H Hk.
+  - assert (k = O) by zlia. subst. reflexivity.
+  - destruct k as [|k]; [reflexivity|]. apply while_stops_at_S in H. destruct H as [Hc H].
+    simpl. unfold frozen at 2. rewrite Hc. apply IH; [exact H|zlia].
+Qed.
+
+Lemma iter_frozen_ge : forall (St : Type) (c : St -> bool) b n s k,
+  while_stops_at c b s n -> (n <= k)%nat -> iter (frozen c b) k s = iter b n s.
+Proof.
+  intros St c b n. induction n as [|n IH]; intros s k H Hk.
+  - destruct H as [_ H]. simpl in H. simpl. clear Hk. induction k as [|k IHk]; [reflexivity|].
+    simpl. unfold frozen at 2. rewrite H. exact IHk.
+  - destruct k as [|k]; [zlia|]. apply while_stops_at_S in H. destruct H as [Hc H].
+    simpl. unfold frozen at 2. rewrite Hc. apply IH; [exact H|zlia].
+Qed.
+
+(* joint loop = every lane stopped; it stops at the maximum of the per-lane trip counts *)
+Lemma joint_stops_at_max : forall (St : Type) (c : St -> bool) b ss ns,
+  Forall2 (while_stops_at c b) ss ns ->
+  while_stops_at (existsb c) (map (frozen c b)) ss (list_max ns).
+Proof.
+  intros St c b ss ns HF. split.
+  - intros k Hk. rewrite iter_map. rewrite existsb_exists.
+    (* some lane has trip count = list_max ns > k *)
+    assert (Hex : exists s n, In s ss /\ while_stops_at c b s n /\ (k < n)%nat).
+    { clear - HF Hk. induction HF as [|s n ss ns Hs HF IH]; simpl in Hk; [zlia|].
+      destruct (Nat.max_spec n (list_max ns)) as [[_ E]|[_ E]]; rewrite E in Hk.
+      - destruct (IH Hk) as [s' [n' [Hin Hrest]]]. exists s', n'. split; [right; exact Hin|exact Hrest].
+      - exists s, n. split; [left; reflexivity|]. split; [exact Hs|exact Hk]. }
+    destruct Hex as [s [n [Hin [Hs Hkn]]]]. exists (iter (frozen c b) k s). split.
+    + apply in_map. exact Hin.
+    + rewrite (iter_frozen_le St c b n s k Hs) by zlia. destruct Hs as [H1 _]. apply H1. exact Hkn.
+  - rewrite iter_map. apply not_true_is_false. intros Hex. rewrite existsb_exists in Hex.
+    destruct Hex as [x [Hin Hx]]. rewrite in_map_iff in Hin. destruct Hin as [s [Hxs Hin]]. subst x.
+    assert (Hl : exists n, while_stops_at c b s n /\ (n <= list_max ns)%nat).
+    { clear - HF Hin. induction HF as [|s' n ss ns Hs HF IH]; [destruct Hin|]. simpl.
+      destruct Hin as [E|Hin].
+      - subst s'. exists n. split; [exact Hs|zlia].
+      - destruct (IH Hin) as [n' [H1 H2]]. exists n'. split; [exact H1|zlia]. }
+    destruct Hl as [n [Hs Hn]]. rewrite (iter_frozen_ge St c b n s _ Hs Hn) in Hx.
+    destruct Hs as [_ H2]. rewrite H2 in Hx. discriminate.
+Qed.
+
+Lemma map_iter_lanes : forall (St : Type) (c : St -> bool) b ss ns N,
+  Forall2 (while_stops_at c b) ss ns -> (list_max ns <= N)%nat ->
+  map (iter (frozen c b) N) ss = zipw (fun s n => iter b n s) ss ns.
+Proof.
+  intros St c b ss ns N HF. induction HF as [|s n ss ns Hs HF IH]; intros HN; simpl; [reflexivity|].
+  simpl in HN. rewrite (iter_frozen_ge St c b n s N Hs) by zlia. rewrite IH by zlia. reflexivity.
+Qed.
+
+(* C06 batched while (vmap of a while_loop): every lane ends in exactly the state its own
+   independent JAX while loop ends in — lanes that finished early stay frozen *)
+Theorem batched_while_correct : forall (St : Type) (c : St -> bool) (b : St -> St) ss0 ns M,
+  Forall2 (while_stops_at c b) ss0 ns -> Z.of_nat (list_max ns) <= M ->
+  forall fuel, (list_max ns <= fuel)%nat ->
+    batched_while_scheme fuel M c b ss0 = Done (zipw (fun s n => iter b n s) ss0 ns)
+    /\ Forall2 (fun s n => jax_while fuel c b s = Done (iter b n s)) ss0 ns.
+Proof.
+  intros St c b ss0 ns M HF HM fuel Hf. split.
+  - unfold batched_while_scheme, onnx_Loop. rewrite any_map.
+    destruct (bw_loop_aux St c b M (list_max ns) 0 ss0 fuel (joint_stops_at_max St c b ss0 ns HF))
+      as [ps [ys Hys]]; [zlia|exact Hf|].
+    rewrite Hys. simpl. rewrite iter_map. f_equal. apply map_iter_lanes; [exact HF|zlia].
+  - clear HM. induction HF as [|s n ss ns Hs HF IH]; constructor.
+    + apply jax_while_spec; [exact Hs|]. simpl in Hf. zlia.
+    + apply IH. simpl in Hf. zlia.
+Qed.
+
+(* ------------------------------------------------------------------ scheme: scan.py *)
+(* ScanPlugin._lower_with_scan_inputs:
+     Loop(M = length (constant when static, else Gather(Shape(xs_0), 0)), cond0 = initializer true,
+          carried = consts ++ carry ++ xs)           -- the scanned arrays travel as carried values
+     body(i, cond_in, consts, carry, xs):  x = Gather(xs, i, axis=0); (carry', y) = jaxpr(consts, carry, x)
+          outputs  Identity(cond_in), Identity(consts), carry', Identity(xs), y     -- y: scan outputs
+   The sequence container is abstract (XS with a Gather `get`), so that one theorem covers one
+   scanned array and several scanned arrays. *)
+Definition scan_body {K C XS X Y : Type} (get : XS -> Z -> option X) (f : K -> C -> X -> C * Y)
+  : Z -> bool -> K * C * XS -> option (bool * (K * C * XS) * Y) :=
+  fun i keep st => let '(k, c, xs) := st in
+    match get xs i with
+    | None => None
+    | Some x => let '(c', y) := f k c x in Some (keep, (k, c', xs), y)
+    end.
+
+Definition scan_scheme_g {K C XS X Y : Type} (fuel : nat) (get : XS -> Z -> option X) (len : Z)
+           (f : K -> C -> X -> C * Y) (k : K) (init : C) (xs : XS) : outcome (C * list Y) :=
+  outcome_map (fun r => (snd (fst (fst r)), snd r))
+              (onnx_Loop fuel (Some len) (Some true) (k, init, xs) (scan_body get f)).
+
+Lemma skipn_nth_error : forall (X : Type) (l : list X) j x,
+  nth_error l j = Some x -> skipn j l = x :: skipn (S j) l.
+Proof.
+  intros X l. induction l as [|a r IH]; intros j x H; destruct j; simpl in *; try discriminate.
+  - inversion H; reflexivity.
+  - apply IH. exact H.
+Qed.
+
+Lemma scan_loop_aux : forall (K C XS X Y : Type) (get : XS -> Z -> option X) (f : K -> C -> X -> C * Y)
+    k xs (l : list X),
+  (forall j, (j < length l)%nat -> get xs (Z.of_nat j) = nth_error l j) ->
+  forall m j c fuel, (j + m = length l)%nat -> (m <= fuel)%nat ->
+    onnx_loop fuel (Some (Z.of_nat (length l))) (Z.of_nat j) true (k, c, xs) (scan_body get f)
+    = Done ((k, fst (jax_scan (f k) c (skipn j l)), xs), snd (jax_scan (f k) c (skipn j l))).
+Proof.
+  intros K C XS X Y get f k xs l Hget m. induction m as [|m IH]; intros j c fuel Hj Hf.
+  - assert (j = length l) by zlia. subst j. rewrite skipn_all. simpl.
+    assert (E : (Z.of_nat (length l) <? Z.of_nat (length l)) = false) by (apply Z.ltb_ge; zlia).
+    destruct fuel; simpl; rewrite E; reflexivity.
+  - destruct fuel as [|fu]; [zlia|]. simpl.
+    assert (E : (Z.of_nat j <? Z.of_nat (length l)) = true) by (apply Z.ltb_lt; zlia). rewrite E.
+    assert (Hjl : (j < length l)%nat) by zlia.
+    rewrite (Hget j Hjl).
+    destruct (nth_error l j) as [x|] eqn:En; [|apply nth_error_None in En; zlia].
+    rewrite (skipn_nth_error X l j x En).
+    specialize (IH (S j)). remember (skipn (S j) l) as tl eqn:Etl.
+    replace (Z.of_nat (S j)) with (Z.of_nat j + 1) in IH by zlia. simpl.
+    destruct (f k c x) as [c' y].
+    rewrite (IH c' fu) by zlia.
+    destruct (jax_scan (f k) c' tl) as [cf ys]. reflexivity.
+Qed.
+
+Theorem scan_scheme_g_correct : forall (K C XS X Y : Type) (get : XS -> Z -> option X)
+    (f : K -> C -> X -> C * Y) k init xs (l : list X),
+  (forall j, (j < length l)%nat -> get xs (Z.of_nat j) = nth_error l j) ->
+  forall fuel, (length l <= fuel)%nat ->
+    scan_scheme_g fuel get (Z.of_nat (length l)) f k init xs = Done (jax_scan (f k) init l).
+Proof.
+  intros K C XS X Y get f k init xs l Hget fuel Hf. unfold scan_scheme_g, onnx_Loop.
+  change 0 with (Z.of_nat 0).
+  rewrite (scan_loop_aux K C XS X Y get f k xs l Hget (length l) O init fuel) by zlia.
+  simpl. destruct (jax_scan (f k) init l); reflexivity.
+Qed.
+
+(* one scanned array: Gather(xs, i, axis=0); an index outside [0, len) is a runtime error.
+   (ONNX Gather also accepts negative indices; the Loop counter starts at 0 and only increases.) *)
+Definition gather0 {X : Type} (xs : list X) (i : Z) : option X :=
+  if i <? 0 then None else nth_error xs (Z.to_nat i).
+
+Definition scan_scheme {K C X Y : Type} (fuel : nat) (f : K -> C -> X -> C * Y) (k : K) (init : C)
+           (xs : list X) : outcome (C * list Y) :=
+  scan_scheme_g fuel gather0 (Z.of_nat (length xs)) f k init xs.
+
+(* C06 scan: for every f, init and xs of ANY length (0 included) the exported Loop returns JAX's
+   final carry and JAX's stacked ys, in order *)
+Theorem scan_scheme_correct : forall (K C X Y : Type) (f : K -> C -> X -> C * Y) k init (xs : list X) fuel,
+  (length xs <= fuel)%nat ->
+  scan_scheme fuel f k init xs = Done (jax_scan (f k) init xs).
+Proof.
+  intros K C X Y f k init xs fuel Hf. unfold scan_scheme.
+  apply scan_scheme_g_correct; [|exact Hf].
+  intros j Hj. unfold gather0.
+  assert (E : (Z.of_nat j <? 0) = false) by (apply Z.ltb_ge; zlia). rewrite E.
+  rewrite Nat2Z.id. reflexivity.
+Qed.
+
+Corollary scan_scheme_zero_length : forall (K C X Y : Type) (f : K -> C -> X -> C * Y) k init fuel,
+  scan_scheme fuel f k init (@nil X) = Done (init, @nil Y).
+Proof. intros. apply (scan_scheme_correct K C X Y f k init [] fuel). simpl. zlia. Qed.
+
+Corollary scan_scheme_ys_length : forall (K C X Y : Type) (f : K -> C -> X -> C * Y) k init (xs : list X) fuel c ys,
+  scan_scheme fuel f k init xs = Done (c, ys) -> (length xs <= fuel)%nat -> length ys = length xs.
+Proof.
+  intros K C X Y f k init xs fuel c ys H Hf. rewrite scan_scheme_correct in H by exact Hf.
+  inversion H as [E]. pose proof (jax_scan_length C X Y (f k) xs init) as L. rewrite E in L. exact L.
+Qed.
+
+(* two scanned arrays: M is the leading extent of the FIRST one, both are gathered with the counter *)
+Definition gather0_2 {A B : Type} (xs : list A * list B) (i : Z) : option (A * B) :=
+  match gather0 (fst xs) i, gather0 (snd xs) i with
+  | Some a, Some b => Some (a, b)
+  | _, _ => None
+  end.
+
+Definition scan2_scheme {K C A B Y : Type} (fuel : nat) (f : K -> C -> A * B -> C * Y) (k : K) (init : C)
+           (xs1 : list A) (xs2 : list B) : outcome (C * list Y) :=
+  scan_scheme_g fuel gather0_2 (Z.of_nat (length xs1)) f k init (xs1, xs2).
+
+Theorem scan2_scheme_correct : forall (K C A B Y : Type) (f : K -> C -> A * B -> C * Y) k init
+    (xs1 : list A) (xs2 : list B) fuel,
+  length xs1 = length xs2 -> (length xs1 <= fuel)%nat ->
+  scan2_scheme fuel f k init xs1 xs2 = Done (jax_scan (f k) init (combine xs1 xs2)).
+Proof.
+  intros K C A B Y f k init xs1 xs2 fuel Hlen Hf. unfold scan2_scheme.
+  assert (Hc : length (combine xs1 xs2) = length xs1) by (rewrite combine_length; zlia).
+  rewrite <- Hc. apply scan_scheme_g_correct; [|zlia].
+  intros j Hj. unfold gather0_2, gather0. simpl.
+  assert (E : (Z.of_nat j <? 0) = false) by (apply Z.ltb_ge; zlia). rewrite E.
+  rewrite Nat2Z.id. clear E Hf fuel.
+  revert xs2 j Hlen Hc Hj. induction xs1 as [|a r IH]; intros xs2 j Hlen Hc Hj; destruct xs2 as [|b r2];
+    simpl in *; try discriminate; try zlia.
+  destruct j as [|j]; simpl; [reflexivity|].
+  apply IH; zlia.
+Qed.
+
+(* ScanPlugin._lower_without_scan_inputs (xs=None, static length):
+     Loop(M = constant length, cond0 = true, carried = consts ++ carry)
+     body: (carry', y) = jaxpr(consts, carry); outputs Identity(cond_in), Identity(consts), carry', y *)
+Definition scan_n_body {K C Y : Type} (f : K -> C -> C * Y)
+  : Z -> bool -> K * C -> option (bool * (K * C) * Y) :=
+  fun _ keep st => let '(k, c) := st in let '(c', y) := f k c in Some (keep, (k, c'), y).
+
+Definition scan_n_scheme {K C Y : Type} (fuel : nat) (f : K -> C -> C * Y) (k : K) (init : C) (n : nat)
+  : outcome (C * list Y) :=
+  outcome_map (fun r => (snd (fst r), snd r))
+              (onnx_Loop fuel (Some (Z.of_nat n)) (Some true) (k, init) (scan_n_body f)).
+
+Lemma scan_n_loop_aux : forall (K C Y : Type) (f : K -> C -> C * Y) k M m i c fuel,
+  M = i + Z.of_nat m -> (m <= fuel)%nat ->
+  onnx_loop fuel (Some M) i true (k, c) (scan_n_body f)
+  = Done ((k, fst (jax_scan_n (f k) c m)), snd (jax_scan_n (f k) c m)).
+Proof.
+  intros K C Y f k M m. induction m as [|m IH]; intros i c fuel HM Hf.
+  - assert (E : (i <? M) = false) by (apply Z.ltb_ge; zlia).
+    destruct fuel; simpl; rewrite E; reflexivity.
+  - destruct fuel as [|fu]; [zlia|]. simpl.
+    assert (E : (i <? M) = true) by (apply Z.ltb_lt; zlia). rewrite E.
+    unfold jax_scan_n. simpl. destruct (f k c) as [c' y].
+    rewrite (IH (i + 1) c' fu) by zlia. unfold jax_scan_n.
+    destruct (jax_scan (fun c0 (_ : unit) => f k c0) c' (repeat tt m)) as [cf ys]. reflexivity.
+Qed.
+
+Theorem scan_n_scheme_correct : forall (K C Y : Type) (f : K -> C -> C * Y) k init n fuel,
+  (n <= fuel)%nat -> scan_n_scheme fuel f k init n = Done (jax_scan_n (f k) init n).
+Proof.
+  intros K C Y f k init n fuel Hf. unfold scan_n_scheme, onnx_Loop.
+  rewrite (scan_n_loop_aux K C Y f k (Z.of_nat n) n 0 init fuel) by zlia.
+  simpl. destruct (jax_scan_n (f k) init n); reflexivity.
+Qed.
+
+(* ------------------------------------------------------------------ scheme: fori_loop.py *)
+(* ForiLoopPlugin (static Python-int bounds only):
+     trip_count = max(0, upper - lower)
+     Loop(M = initializer trip_count, cond0 = initializer true, carried = state)
+     body(i, cond_in, s): idx = Cast(i + lower); s' = body_jaxpr(idx, s); outputs Identity(cond_in), s' *)
+Definition fori_body {St : Type} (lower : Z) (body : Z -> St -> St)
+  : Z -> bool -> St -> option (bool * St * unit) :=
+  fun i keep s => Some (keep, body (lower + i) s, tt).
+
+Definition fori_scheme {St : Type} (fuel : nat) (lower upper : Z) (body : Z -> St -> St) (init : St)
+  : outcome St :=
+  outcome_map fst (onnx_Loop fuel (Some (Z.max 0 (upper - lower))) (Some true) init (fori_body lower body)).
+
+Lemma fori_loop_aux : forall (St : Type) (lower : Z) (body : Z -> St -> St) M m j s fuel,
+  M = Z.of_nat (j + m) -> (m <= fuel)%nat ->
+  exists ys, onnx_loop fuel (Some M) (Z.of_nat j) true s (fori_body lower body)
+   = Done (fold_left (fun s i => body i s) (map (fun k => lower + Z.of_nat k) (seq j m)) s, ys).
+Proof.
+  intros St lower body M m. induction m as [|m IH]; intros j s fuel HM Hf.
+  - assert (E : (Z.of_nat j <? M) = false) by (apply Z.ltb_ge; zlia). exists [].
+    destruct fuel; simpl; rewrite E; reflexivity.
+  - destruct fuel as [|fu]; [zlia|]. simpl.
+    assert (E : (Z.of_nat j <? M) = true) by (apply Z.ltb_lt; zlia). rewrite E.
+    replace (Z.of_nat j + 1) with (Z.of_nat (S j)) by zlia.
+    destruct (IH (S j) (body (lower + Z.of_nat j) s) fu) as [ys Hys]; [zlia|zlia|].
+    rewrite Hys. exists (tt :: ys). reflexivity.
+Qed.
+
+(* C06 fori: for ALL integer bounds (upper <= lower included: zero iterations) *)
+Theorem fori_scheme_correct : forall (St : Type) (lower upper : Z) (body : Z -> St -> St) init fuel,
+  (Z.to_nat (upper - lower) <= fuel)%nat ->
+  fori_scheme fuel lower upper body init = Done (jax_fori lower upper body init).
+Proof.
+  intros St lower upper body init fuel Hf. unfold fori_scheme, onnx_Loop, jax_fori, py_range.
+  change 0 with (Z.of_nat 0) at 2.
+  destruct (fori_loop_aux St lower body (Z.max 0 (upper - lower)) (Z.to_nat (upper - lower)) O init fuel)
+    as [ys Hys]; [zlia|exact Hf|].
+  rewrite Hys. reflexivity.
+Qed.
+
+Corollary fori_scheme_zero_trips : forall (St : Type) (lower upper : Z) (body : Z -> St -> St) init fuel,
+  upper <= lower -> fori_scheme fuel lower upper body init = Done init.
+Proof.
+  intros St lower upper body init fuel H.
+  rewrite fori_scheme_correct by (replace (Z.to_nat (upper - lower)) with O by zlia; zlia).
+  unfold jax_fori, py_range. replace (Z.to_nat (upper - lower)) with O by zlia. reflexivity.
+Qed.
+
+(* JAX lowers a fori_loop with non-static bounds to while_loop((i, x) -> i < upper): same function *)
+Lemma fori_as_while_aux : forall (St : Type) (upper : Z) (body : Z -> St -> St) m lower s fuel,
+  m = Z.to_nat (upper - lower) -> (m <= fuel)%nat ->
+  jax_while fuel (fun st : Z * St => fst st <? upper) (fun st => (fst st + 1, body (fst st) (snd st))) (lower, s)
+  = Done (Z.max lower upper, fold_left (fun s i => body i s) (py_range lower upper) s).
+Proof.
+  intros St upper body m. induction m as [|m IH]; intros lower s fuel Hm Hf.
+  - unfold py_range. rewrite <- Hm. simpl.
+    assert (E : (lower <? upper) = false) by (apply Z.ltb_ge; zlia).
+    replace (Z.max lower upper) with lower by zlia.
+    destruct fuel; simpl; rewrite E; reflexivity.
+  - destruct fuel as [|fu]; [zlia|]. simpl.
+    assert (E : (lower <? upper) = true) by (apply Z.ltb_lt; zlia). rewrite E.
+    rewrite (IH (lower + 1) (body lower s) fu) by zlia.
+    unfold py_range. rewrite <- Hm.
+    replace (Z.to_nat (upper - (lower + 1))) with m by zlia.
+    replace (Z.max (lower + 1) upper) with (Z.max lower upper) by zlia.
+    simpl. rewrite <- seq_shift, map_map.
+    replace (lower + 0) with lower by zlia.
+    rewrite (map_ext (fun x : nat => lower + Z.of_nat (S x)) (fun k : nat => lower + 1 + Z.of_nat k))
+      by (intros a; zlia).
+    reflexivity.
+Qed.
+
+Lemma jax_fori_as_while : forall (St : Type) (lower upper : Z) (body : Z -> St -> St) init fuel,
+  (Z.to_nat (upper - lower) <= fuel)%nat ->
+  outcome_map snd (jax_while fuel (fun st : Z * St => fst st <? upper)
+                             (fun st => (fst st + 1, body (fst st) (snd st))) (lower, init))
+  = Done (jax_fori lower upper body init).
+Proof.
+  intros St lower upper body init fuel Hf.
+  rewrite (fori_as_while_aux St upper body _ lower init fuel eq_refl Hf). reflexivity.
+Qed.
+
+(* ------------------------------------------------------------------ scheme: cond.py *)
+(* lax.cond(pred, true_fun, false_fun, x) binds cond_p with branches = (false_fun, true_fun) and the
+   predicate as selector; lax.switch(i, [b0; b1], x) binds cond_p with branches = (b0, b1) and selector
+   clamp(0, i, 1).  CondPlugin.lower:  (false_closed, true_closed) = branches   -- exactly two, else raises
+     If(Cast<BOOL>(selector) unless it is already bool, then_branch = true_closed, else_branch = false_closed)
+   outer values are captured implicitly by the branch graphs. *)
+Definition cast_bool (z : Z) : bool := negb (z =? 0).
+
+Definition cond_scheme {A B : Type} (sel : bool) (branch0 branch1 : A -> B) (x : A) : B :=
+  onnx_if sel (fun _ => branch1 x) (fun _ => branch0 x).
+
+(* the dispatcher: None = raises at export time *)
+Definition cond_plugin {A B : Type} (sel : bool) (branches : list (A -> B)) (x : A) : option B :=
+  match branches with
+  | [b0; b1] => Some (cond_scheme sel b0 b1 x)
+  | _ => None
+  end.
+
+(* C06 cond: both predicate values *)
+Theorem cond_scheme_correct : forall (A B : Type) (p : bool) (true_fun false_fun : A -> B) x,
+  cond_plugin p [false_fun; true_fun] x = Some (jax_cond p true_fun false_fun x).
+Proof. intros A B p tf ff x. destruct p; reflexivity. Qed.
+
+(* lax.cond converts a traced predicate to int32 before binding cond_p; the plugin casts it back *)
+Lemma cast_bool_b2z : forall p : bool, cast_bool (Z.b2z p) = p.
+Proof. intros p. destruct p; reflexivity. Qed.
+
+Theorem cond_scheme_correct_int_pred : forall (A B : Type) (p : bool) (true_fun false_fun : A -> B) x,
+  cond_plugin (cast_bool (Z.b2z p)) [false_fun; true_fun] x = Some (jax_cond p true_fun false_fun x).
+Proof. intros A B p tf ff x. rewrite cast_bool_b2z. apply cond_scheme_correct. Qed.
+
+(* C06 two-way switch: EVERY integer index, in range or not *)
+Theorem switch2_scheme_correct : forall (A B : Type) (idx : Z) (b0 b1 : A -> B) x,
+  cond_plugin (cast_bool (clamp 0 idx 1)) [b0; b1] x = jax_switch idx [b0; b1] x.
+Proof.
+  intros A B idx b0 b1 x. unfold jax_switch, cond_plugin, cond_scheme, onnx_if, cast_bool, clamp. simpl length.
+  destruct (Z_le_gt_dec idx 0) as [H|H].
+  - replace (Z.max 0 (Z.min idx (Z.of_nat 2 - 1))) with 0 by zlia.
+    replace (Z.max 0 (Z.min idx 1)) with 0 by zlia. reflexivity.
+  - replace (Z.max 0 (Z.min idx (Z.of_nat 2 - 1))) with 1 by zlia.
+    replace (Z.max 0 (Z.min idx 1)) with 1 by zlia. reflexivity.
+Qed.
+
+(* constructs the plugin cannot represent are rejected, not exported with different semantics *)
+Theorem cond_plugin_rejects_other_arity : forall (A B : Type) sel (branches : list (A -> B)) x,
+  length branches <> 2%nat -> cond_plugin sel branches x = None.
+Proof.
+  intros A B sel branches x H. destruct branches as [|b0 [|b1 [|b2 r]]]; simpl in *; try reflexivity.
+  exfalso. apply H. reflexivity.
+Qed.
+
+(* the clamp emitted by lax.switch is load-bearing: a bare Cast-to-bool of the index would send -1 to
+   branch 1 where JAX takes branch 0 *)
+Example switch_needs_clamp :
+  cond_plugin (cast_bool (-1)) [fun x : Z => x * 3; fun x => x + 10] 2 = Some 12
+  /\ jax_switch (-1) [fun x : Z => x * 3; fun x => x + 10] 2 = Some 6.
+Proof. split; reflexivity. Qed.
+
+(* ------------------------------------------------------------------ non-vacuity *)
+(* while: count up to 3 while doubling an accumulator that also adds the captured constant k = 10 *)
+Definition ex_c (k : Z) (s : Z * Z) : bool := fst s <? 3.
+Definition ex_b (k : Z) (s : Z * Z) : Z * Z := (fst s + 1, 2 * snd s + k).
+
+Example ex_while_stops_0 : while_stops_at (ex_c 10) (ex_b 10) (3, 1) 0.
+Proof. split; [intros k H; zlia|reflexivity]. Qed.
+Example ex_while_stops_1 : while_stops_at (ex_c 10) (ex_b 10) (2, 1) 1.
+Proof. split; [intros k H; assert (k = O) by zlia; subst; reflexivity|reflexivity]. Qed.
+Example ex_while_stops_3 : while_stops_at (ex_c 10) (ex_b 10) (0, 1) 3.
+Proof.
+  split; [|reflexivity]. intros k H.
+  destruct k as [|[|[|k]]]; try reflexivity. zlia.
+Qed.
+Example ex_while_0 : while_scheme 0 int64_max ex_c ex_b 10 (3, 1) = Done (10, (3, 1)).
+Proof. reflexivity. Qed.
+Example ex_while_1 : while_scheme 1 int64_max ex_c ex_b 10 (2, 1) = Done (10, (3, 12)).
+Proof. reflexivity. Qed.
+Example ex_while_3 : while_scheme 3 int64_max ex_c ex_b 10 (0, 1) = Done (10, (3, 78)).
+Proof. reflexivity. Qed.
+Example ex_while_nofuel : while_scheme 2 int64_max ex_c ex_b 10 (0, 1) = NoFuel.
+Proof. reflexivity. Qed.
+
+(* scan: running sum, emitting carry * x *)
+Definition ex_f (k : Z) (c x : Z) : Z * Z := (c + x, k * c * x).
+Example ex_scan_0 : scan_scheme 0 ex_f 2 5 [] = Done (5, []).
+Proof. reflexivity. Qed.
+Example ex_scan_1 : scan_scheme 1 ex_f 2 5 [7] = Done (12, [70]).
+Proof. reflexivity. Qed.
+Example ex_scan_3 : scan_scheme 3 ex_f 2 5 [1; 2; 3] = Done (11, [10; 24; 48]).
+Proof. reflexivity. Qed.
+Example ex_scan_fault : (* a Loop told to run longer than the sequence faults; it is not silently padded *)
+  scan_scheme_g 5 gather0 4 ex_f 2 5 [1; 2; 3] = Fault.
+Proof. reflexivity. Qed.
+Example ex_scan_n_3 : scan_n_scheme 3 (fun (k c : Z) => (2 * c, c + k)) 1 3 3 = Done (24, [4; 7; 13]).
+Proof. reflexivity. Qed.
+
+(* fori: v = 2 v + i *)
+Example ex_fori_5 : fori_scheme 5 2 7 (fun i v => 2 * v + i) 1 = Done 120.
+Proof. reflexivity. Qed.
+Example ex_fori_0 : fori_scheme 0 5 2 (fun i v => 2 * v + i) 1 = Done 1.
+Proof. reflexivity. Qed.
+Example ex_fori_neg : fori_scheme 2 (-3) (-1) (fun i v => 2 * v + i) 1 = Done (-4).
+Proof. reflexivity. Qed.
+
+(* batched while: lanes stop after 3, 0 and 1 iterations *)
+Example ex_batched : batched_while_scheme 3 int64_max (fun s => s <? 3) (fun s => s + 1) [0; 7; 2]
+                     = Done [3; 7; 3].
+Proof. reflexivity. Qed.
